@@ -109,6 +109,10 @@ type op struct {
 	porigin string   // origin carried by the prefix (where the collector puts it)
 	shared  bool     // build the prefix with spare capacity and share it between the generated notifications
 	singles bool     // multi only: submit the parts one at a time instead (differential twin)
+	// sharedPath: the update path OBJECTS are the caller's and are reused by every
+	// operation of the history that names the same relative path (a collector
+	// building "state/oper-status" once and sending it under one prefix per interface)
+	sharedPath bool
 }
 
 func (o op) String() string {
@@ -134,6 +138,9 @@ func (o op) String() string {
 	}
 	if o.shared {
 		b.WriteString(",shared-prefix")
+	}
+	if o.sharedPath {
+		b.WriteString(",shared-path-object")
 	}
 	b.WriteString(")")
 	return b.String()
